@@ -206,3 +206,322 @@ Proof. vm_compute. reflexivity. Qed.
 Example ex_torn_late_opens :
   accepts (firstn 56 (encode ex_fin) ++ skipn 56 (encode ex_s0)) = true.
 Proof. vm_compute. reflexivity. Qed.
+
+(* ================================================================================================================
+   Extension (session 3): the writer's output-call sequence as a theorem.
+
+   Above, [trace_ok] is a HYPOTHESIS about a trace (evaluated by trace_okb on the logged calls of real runs);
+   [commit_refs_in_file] and the first clause of [after_commit_complete] merely restate two of its clauses.
+   Properties_C03.image_trace_ok derives [trace_ok] from the writer model Image.FinishModel.write_image at ONE EVENT
+   PER SECTION.  This section closes the gap to the granularity of the real system calls:
+
+   1. a refinement theory (C14/RefineModel.v, RefineProofs.v): a fine trace refines a coarse one when every coarse
+      event is replaced by itself or by calls that stay at offsets / truncation lengths >= the protected bound (96
+      between the two super block writes, bytes_used behind the commit) and leave the same file - including blocks
+      that are written, cut off again by a truncation and rewritten; refinement preserves [apply], [trace_ok] and the
+      committed file, so crash safety holds at EVERY kill point of the fine trace, also inside a refined section;
+   2. the fine trace of the composed writer model (C14/FineModel.v): sqfs_super_write, write_options, the block
+      processor / block writer of C08.DedupModel (one write per stored block, one ftruncate per deduplicated run),
+      one write per metadata block of the inode and directory table, the blocks + location list of
+      sqfs_write_table three times, the xattr section's blocks + header + location list, the commit, the padding;
+      it refines w_trace of the section-level model FOR ALL INPUTS (writer_fine_trace_ok), hence every prefix of it
+      is refused or complete (writer_kill_safe);
+   3. the derived, assumption-free versions of the facts about the commit (writer_commit_facts).
+   ================================================================================================================ *)
+From Coq Require Import Lia.
+
+(* all hypotheses of torn_commit_rejected_partial together (audit item) *)
+Example ex_torn_hyps :
+  super_init 4096 1700000000 1 = Ok ex_s0 /\
+  bytes_ok (encode ex_fin) /\ length (encode ex_fin) = SB /\
+  (41 < N.to_nat off_sqfs_super_t_id_table_start + 8)%nat /\
+  s_bytes_used (decode (encode ex_fin)) < 2 ^ 56 /\
+  accepts (firstn 41 (encode ex_fin) ++ skipn 41 (encode ex_s0) ++ [7;7;7]) = false.
+Proof.
+  split; [exact ex_s0_init|]. split; [apply encode_bytes_ok|].
+  split; [vm_compute; reflexivity|]. split; [vm_compute; lia|].
+  split; vm_compute; reflexivity.
+Qed.
+(* trace_ok itself (the Prop, not only the boolean) of the example trace *)
+Example ex_trace_ok_prop : trace_ok ex_trace /\ commit_index ex_trace = 8%nat.
+Proof. split; [apply trace_okb_sound; exact ex_trace_ok|exact ex_commit_index]. Qed.
+
+From SqfsV Require Import C03.Common C03.MetaModel C03.MetaProofs C03.TableModel C03.TableProofs.
+From SqfsV Require C08.DedupModel.
+From SqfsV Require Import C14.RefineModel C14.RefineProofs C14.FineModel C14.FineData C14.FineProofs C14.SectionModel
+  C14.SectionProofs.
+From SqfsV Require Import C01.GenC01 Img.TreeModel Image.FinishModel Image.FinishProofs Image.ImageProofs.
+From SqfsV Require Img.Example Image.Example Img.ZrleProofs.
+
+(* ---- refinement of traces ---- *)
+
+(* a refinement (from any file F, behind any bound lo) leaves the same file ... *)
+Theorem refinement_same_file : forall lo F fine coarse,
+  refines_from lo F fine coarse -> apply_from F fine = apply_from F coarse.
+Proof. exact refines_apply. Qed.
+Print Assumptions refinement_same_file.
+
+(* ... and respects every bound lo' <= lo the coarse trace respects *)
+Theorem refinement_stays_behind : forall lo F fine coarse,
+  refines_from lo F fine coarse ->
+  forall lo', lo' <= lo -> forallb (keeps lo') coarse = true -> forallb (keeps lo') fine = true.
+Proof. exact refines_keeps. Qed.
+Print Assumptions refinement_stays_behind.
+
+(* the shape the crash-safety theorems need is preserved, with the same final file and the same committed file *)
+Theorem refinement_preserves_shape : forall fine coarse,
+  trace_ok coarse -> trace_refines fine coarse ->
+  trace_ok fine /\ apply fine = apply coarse /\ committed fine = committed coarse.
+Proof. exact refine_shape. Qed.
+Print Assumptions refinement_preserves_shape.
+
+(* crash safety at every kill point of the FINE trace.  k counts fine events: a prefix may end inside a refined
+   section (between two data blocks, between a block and the truncation that removes it, between the blocks of a
+   table and its location list, ...) *)
+Theorem refined_crash_prefix_rejected : forall fine coarse,
+  trace_ok coarse -> trace_refines fine coarse ->
+  forall k, (k <= commit_index fine)%nat -> accepts (apply (firstn k fine)) = false.
+Proof. exact refined_prefix_rejected_l. Qed.
+Print Assumptions refined_crash_prefix_rejected.
+
+Theorem refined_after_commit_complete : forall fine coarse,
+  trace_ok coarse -> trace_refines fine coarse ->
+  let F := committed coarse in
+  let bu := s_bytes_used (decode F) in
+  forall k, (commit_index fine < k)%nat ->
+    firstn (N.to_nat bu) (apply (firstn k fine)) = firstn (N.to_nat bu) F /\
+    decode (apply (firstn k fine)) = decode F.
+Proof. exact refined_after_commit_l. Qed.
+Print Assumptions refined_after_commit_complete.
+
+Theorem refined_crash_safe : forall fine coarse,
+  trace_ok coarse -> trace_refines fine coarse ->
+  forall k, accepts (apply (firstn k fine)) = false \/
+            image_of (apply (firstn k fine)) = image_of (apply coarse).
+Proof. exact refined_crash_safe_l. Qed.
+Print Assumptions refined_crash_safe.
+
+(* the executable check evaluated on the logged calls of real runs establishes the relation (the segment lengths
+   [cb], [ct] are a certificate found outside; the check does not trust them) *)
+Theorem trace_refinesb_sound : forall cb ct fine coarse,
+  trace_refinesb cb ct fine coarse = true -> trace_refines fine coarse.
+Proof. exact RefineProofs.trace_refinesb_sound. Qed.
+Print Assumptions trace_refinesb_sound.
+
+(* the typical segment: calls behind lo that together append d to a file of length off - in particular d written in
+   any number of pieces *)
+Theorem appending_segment_refines : forall lo F off d seg,
+  off = N.of_nat (length F) -> forallb (keeps lo) seg = true -> apply_from F seg = F ++ d ->
+  refines_from lo F seg (ev_one off d).
+Proof. exact append_seg. Qed.
+Print Assumptions appending_segment_refines.
+
+Theorem chunked_write_refines : forall lo F off chunks,
+  off = N.of_nat (length F) -> lo <= off ->
+  refines_from lo F (ev_chunks off chunks) (ev_one off (concat chunks)).
+Proof. exact chunks_refine. Qed.
+Print Assumptions chunked_write_refines.
+
+(* ---- the parts of the fine model ---- *)
+
+(* block processor + block writer (C08.DedupModel.pack), any hash function / compressor / schedule / flags / block
+   size: the logged calls stay at or behind the length of the file the writer was created on, applied to that file
+   they give the file the writer ends with, and that file still begins with the original one *)
+Theorem block_writer_calls_behind_start :
+  forall hashf compress uncompress bs hash_only bytecmp half file0 files sched st,
+  DedupModel.pack hashf compress uncompress bs hash_only bytecmp half file0 files sched = DedupModel.Ok st ->
+  let evs := map conv_ev (DedupModel.p_evs st) in
+  apply_from file0 evs = DedupModel.w_file (DedupModel.p_wr st) /\
+  forallb (keeps (N.of_nat (length file0))) evs = true /\
+  DedupModel.w_file (DedupModel.p_wr st) = file0 ++ skipn (length file0) (DedupModel.w_file (DedupModel.p_wr st)).
+Proof. exact pack_io. Qed.
+Print Assumptions block_writer_calls_behind_start.
+
+(* the pieces a metadata area is cut into (by reading the block headers, as write_block does) are the blocks the
+   meta writer flushed; a lookup table is its blocks followed by the location list as one piece *)
+Theorem meta_blocks_faithful : forall compress uncompress,
+  (forall b c, compress b = CData c -> lenN c <= lenN b /\ uncompress c = Some b) ->
+  forall raws, Forall blk_ok raws ->
+  meta_blocks (concat (map (enc compress) raws)) = map (enc compress) raws.
+Proof. exact meta_blocks_enc. Qed.
+Print Assumptions meta_blocks_faithful.
+
+Theorem table_calls_faithful : forall compress uncompress,
+  (forall b c, compress b = CData c -> lenN c <= lenN b /\ uncompress c = Some b) ->
+  forall size0 data bytes start,
+  write_table compress size0 data = Common.Ok (bytes, start) ->
+  exists chunks, concat chunks = data /\
+    table_chunks size0 bytes start =
+    map (enc compress) chunks ++ [concat (map le64 (table_locs compress size0 chunks))].
+Proof. exact table_chunks_faithful. Qed.
+Print Assumptions table_calls_faithful.
+
+(* ---- the composed writer ---- *)
+
+(* writer_fine_trace_ok: for every configuration, input, schedule and all data path oracles, the system-call level
+   trace of a successful run refines the section level trace of write_image, has the promised shape, produces
+   exactly image_bytes, and commits the same file.
+   Hypotheses: the compressor contract and id table limit of the Image theorems, their decidable domain
+   [image_domain] on the input of write_image (here: the input the data phase leaves - in_data, in_frags are
+   computed by the block processor model) and [image_fits] on the run.  The block writer starts at
+   96 + |compressor options| >= 96 by construction of the composed model. *)
+Theorem writer_fine_trace_ok :
+  forall hashf dcompress duncompress hash_only bytecmp half compress uncompress,
+  (forall b c, compress b = CData c -> lenN c <= lenN b /\ uncompress c = Some b) ->
+  forall limit, limit <= 65535 ->
+  forall cfg fin inp w tr,
+  fine_write hashf dcompress duncompress hash_only bytecmp half compress limit cfg fin = FOk inp w tr ->
+  image_domain cfg inp = true -> image_fits w = true ->
+  trace_refines tr (w_trace w) /\ trace_ok tr /\ apply tr = image_bytes w /\
+  committed tr = committed (w_trace w).
+Proof. exact writer_fine_trace_ok_l. Qed.
+Print Assumptions writer_fine_trace_ok.
+
+(* writer_kill_safe: C14 end to end on the composed model - for all inputs and ALL kill points (k = number of
+   output system calls that completed) the file left behind is refused by every reader or is the complete image *)
+Theorem writer_kill_safe :
+  forall hashf dcompress duncompress hash_only bytecmp half compress uncompress,
+  (forall b c, compress b = CData c -> lenN c <= lenN b /\ uncompress c = Some b) ->
+  forall limit, limit <= 65535 ->
+  forall cfg fin inp w tr,
+  fine_write hashf dcompress duncompress hash_only bytecmp half compress limit cfg fin = FOk inp w tr ->
+  image_domain cfg inp = true -> image_fits w = true ->
+  forall k, accepts (apply (firstn k tr)) = false \/
+            image_of (apply (firstn k tr)) = image_of (image_bytes w).
+Proof. exact writer_kill_safe_l. Qed.
+Print Assumptions writer_kill_safe.
+
+(* writer_commit_facts: what commit_refs_in_file / after_commit_complete take from the hypothesis trace_ok, DERIVED
+   from the writer model: at the commit the file's super block is the one sqfs_writer_finish computed, every table
+   start it names is absent or inside [96, bytes_used), bytes_used lies inside the file, and the first bytes_used
+   bytes are already those of the final image *)
+Theorem writer_commit_facts : forall compress uncompress,
+  (forall b c, compress b = CData c -> lenN c <= lenN b /\ uncompress c = Some b) ->
+  forall limit, limit <= 65535 ->
+  forall cfg inp w,
+  write_image compress limit cfg inp = Res.Ok w -> image_domain cfg inp = true -> image_fits w = true ->
+  let F := committed (w_trace w) in
+  decode F = w_super w /\
+  refs_in_file (w_super w) = true /\
+  sizeof_sqfs_super_t <= s_bytes_used (w_super w) <= N.of_nat (length F) /\
+  firstn (N.to_nat (s_bytes_used (w_super w))) F = firstn (N.to_nat (s_bytes_used (w_super w))) (image_bytes w).
+Proof. exact writer_commit_facts_l. Qed.
+Print Assumptions writer_commit_facts.
+
+(* coarse_of_image_recovers_trace: the correspondence check recomputes the section-level trace of a real run from the
+   image it produced (SectionModel.coarse_of_image: super block, first entries of the location lists, options header).
+   On every image of the model that function returns exactly the trace the model emitted - so the coarse trace the
+   logged calls are checked to refine is w_trace of Image.FinishModel, not a second hand-written layout. *)
+Theorem coarse_of_image_recovers_trace : forall compress uncompress,
+  (forall b c, compress b = CData c -> lenN c <= lenN b /\ uncompress c = Some b) ->
+  forall limit, limit <= 65535 ->
+  forall cfg inp w,
+  write_image compress limit cfg inp = Res.Ok w -> image_domain cfg inp = true -> image_fits w = true ->
+  coarse_of_image (PWrite 0 (encode (w_super0 w))) (image_bytes w) = Some (w_trace w).
+Proof. exact coarse_of_image_spec. Qed.
+Print Assumptions coarse_of_image_recovers_trace.
+
+(* ---- non-vacuity ---- *)
+
+(* ex_trace (above) is a refinement of the section-level trace: the data section [1;2;3;4;9;9] at 96 was written as
+   4 bytes, 4 more, cut back to 100, 2 bytes; the id table as block + location list *)
+Definition ex_coarse : list event :=
+  [ PWrite 0 (encode ex_s0);
+    PWrite 96 [1;2;3;4;9;9];
+    PWrite 102 [4;128;7;7;7;7];
+    PWrite 108 [4;128;0;0;0;0; 108;0;0;0;0;0];
+    PWrite 0 (encode ex_fin);
+    PWrite 120 [0;0;0;0;0;0;0;0] ].
+Example ex_refines : trace_okb ex_coarse = true /\ trace_refinesb [4; 1; 2]%nat [1%nat] ex_trace ex_coarse = true.
+Proof. vm_compute. split; reflexivity. Qed.
+Example ex_refines_prop : trace_ok ex_coarse /\ trace_refines ex_trace ex_coarse.
+Proof.
+  split; [apply trace_okb_sound; exact (proj1 ex_refines)|apply trace_refinesb_sound with (1 := proj2 ex_refines)].
+Qed.
+(* not everything is a refinement: a truncation below the super block (even if the bytes are written again),
+   a different final content, a commit split into two writes, a tail write below bytes_used *)
+Example ex_not_refinements :
+  trace_refinesb [5; 1; 2]%nat [1%nat]
+    (firstn 3 ex_trace ++ [Truncate 95; PWrite 95 [0;1;2;3;4]] ++ skipn 4 ex_trace) ex_coarse = false /\
+  trace_refinesb [4; 1; 2]%nat [1%nat] (firstn 4 ex_trace ++ [PWrite 100 [9;8]] ++ skipn 5 ex_trace) ex_coarse = false /\
+  trace_refinesb [4; 1; 2]%nat [1%nat]
+    (firstn 8 ex_trace ++ [PWrite 0 (firstn 48 (encode ex_fin)); PWrite 48 (skipn 48 (encode ex_fin))] ++ skipn 9 ex_trace)
+    ex_coarse = false /\
+  trace_refinesb [4; 1; 2]%nat [2%nat] (firstn 9 ex_trace ++ [PWrite 119 [0]; PWrite 120 [0;0;0;0;0;0;0;0]]) ex_coarse = false.
+Proof. vm_compute. repeat split; reflexivity. Qed.
+
+(* the composed model on a concrete input: zero-run-length metadata compressor, run-length data compressor, the 96
+   inode tree of Img/Example.v, compressor options, four files - the third repeats the first (its two blocks are
+   written and cut off again), the second is a fragment.  22 output calls, the commit is call 20. *)
+Definition exf_fl (nofrag : bool) : DedupModel.uflags :=
+  {| DedupModel.uf_dont_compress := false; DedupModel.uf_dont_hash := false; DedupModel.uf_dont_fragment := nofrag;
+     DedupModel.uf_dont_dedup := false; DedupModel.uf_ignore_sparse := false |}.
+Definition exf_bytes (k : N) (n : nat) : list N := map (fun i => (N.of_nat i * k) mod 251) (seq 0 n).
+Definition exf_in : finput :=
+  mkFin [4; 128; 1; 2; 3; 4]
+        [(exf_fl true, exf_bytes 7 4200); (exf_fl false, exf_bytes 3 100); (exf_fl true, exf_bytes 7 4200);
+         (exf_fl true, exf_bytes 11 4096)]
+        [] Img.Example.ex_tree None.
+Definition exf_run : fres :=
+  fine_write (DedupModel.toy_hash 65521) DedupModel.toy_compress DedupModel.toy_uncompress false true 4096
+             (img_compress 3) c_id_table_limit Image.Example.ex_cfg exf_in.
+
+Example ex_fine_hyps :
+  (forall b c, img_compress 3 b = CData c -> lenN c <= lenN b /\ img_uncompress 3 c = Some b) /\
+  c_id_table_limit <= 65535 /\
+  match exf_run return Prop with
+  | FOk inp w tr => image_domain Image.Example.ex_cfg inp = true /\ image_fits w = true /\
+                    in_frags inp = [(8398, 16777316)] /\ lenN (in_data inp) = 8396
+  | _ => False
+  end.
+Proof.
+  split; [exact (ZrleProofs.img_contract 3 (or_intror eq_refl))|]. split; [vm_compute; discriminate|].
+  vm_compute. repeat split; reflexivity.
+Qed.
+
+(* its calls: (0, offset, length) = pwrite, (1, length, 0) = ftruncate *)
+Example ex_fine_calls :
+  match exf_run return Prop with
+  | FOk inp w tr =>
+      map (fun e => match e with PWrite o d => (0, o, lenN d) | Truncate n => (1, n, 0) end) tr =
+      [(0, 0, 96); (0, 96, 6);
+       (0, 102, 4096); (0, 4198, 104); (0, 4302, 4096); (0, 8398, 104); (1, 4302, 0); (0, 4302, 4096); (0, 8398, 100);
+       (0, 8498, 8012); (0, 16510, 701);
+       (0, 17211, 8194); (0, 25405, 8194); (0, 33599, 2551);
+       (0, 36150, 12); (0, 36162, 8); (0, 36170, 473); (0, 36643, 8); (0, 36651, 9); (0, 36660, 8);
+       (0, 0, 96); (0, 36668, 196)] /\
+      commit_index tr = 20%nat /\ length (w_trace w) = 10%nat /\ commit_index (w_trace w) = 8%nat
+  | _ => False
+  end.
+Proof. vm_compute. repeat split; reflexivity. Qed.
+
+(* and what the theorems say about it, computed: refused at the 21 kill points up to the commit (among them: between
+   the duplicate blocks and the truncation, between table blocks and location lists), accepted at the last two *)
+Example ex_fine_kill_points :
+  match exf_run return Prop with
+  | FOk inp w tr =>
+      map (fun k => accepts (apply (firstn k tr))) (seq 0 23) = repeat false 21 ++ [true; true] /\
+      list_eqb (apply tr) (image_bytes w) = true /\
+      map (fun k => list_eqb (image_of (apply (firstn k tr))) (image_of (image_bytes w))) [21%nat; 22%nat] = [true; true]
+  | _ => False
+  end.
+Proof. vm_compute. repeat split; reflexivity. Qed.
+
+(* the run-time checks of the correspondence check, evaluated on the image of the composed model: the sections are
+   well-formed, the coarse trace is recovered, and the calls predicted per section are the model's fine trace *)
+Example ex_fine_sections :
+  match exf_run return Prop with
+  | FOk inp w tr =>
+      sections_wf (image_bytes w) = true /\
+      match coarse_of_image (PWrite 0 (encode (w_super0 w))) (image_bytes w) with
+      | Some c => events_eqb c (w_trace w) = true /\ trace_okb c = true /\
+                  trace_refinesb [1; 7; 2; 3; 2; 2; 2]%nat [1%nat] tr c = true
+      | None => False
+      end /\
+      match predicted_calls (image_bytes w) with
+      | Some p => map (fun o => match o with Some l => length l | None => 99%nat end) p = [1; 99; 2; 3; 2; 2; 2]%nat
+      | None => False
+      end
+  | _ => False
+  end.
+Proof. vm_compute. repeat split; reflexivity. Qed.
